@@ -271,6 +271,14 @@ def foreign_heads(code, spec, allow=()) -> List[str]:
     return sorted(h for h in heads_of(code) if h not in hs and h not in VALUE_CHANGING)
 
 
+def value_changing_heads(code, spec) -> List[str]:
+    """value-changing library calls (clamping, rounding, ...) the code's value mentions and the documented value does not: a mismatch that goes through
+    one of them is a violation whatever else the construction uses"""
+    def hs(v):
+        return {t.head for t in walk_vals(v) if isinstance(t, Term)}
+    return sorted(h for h in hs(code) - hs(spec) if h in VALUE_CHANGING)
+
+
 def result_positions(ev, res) -> Dict[str, int]:
     """which local name ends up at which position of a returned tuple (by the values the names hold when the function returns, so an intermediate
     name for the tuple does not matter)"""
